@@ -467,7 +467,7 @@ m("C19-pop-if-clear-before-test", "C19", "may_queue/src/mpsc_list_v1.rs",
             if !f(v) {
                 // no pop
                 return None;
-            }""", "a declined pop_if unlinks the stub's handle: a later remove of that entry misbehaves")
+            }""", "control: the link bit of the stub is cleared one declined pop_if earlier; remove() returns None for the stub either way (prev is null), only Entry::is_link() of an already consumed entry differs, which C19 does not speak about (must NOT be reported)")
 m("C19-push-link-before-prev", "C19", "may_queue/src/mpsc_list_v1.rs",
   """            (*node).prev = prev;
             (*prev).next.store(node, Ordering::Release);""",
